@@ -32,6 +32,9 @@ impl InstructionGenerator {
         for i in 0..else_if_blocks.len() {
             let else_if_block = else_if_blocks[i].clone();
             self.label(&format!("else-if-{}", i), pos);
+            // to be able to RESUME after an error in the condition of this ELSEIF
+            // (the previous mark is followed by the jump out of the IF)
+            self.mark_statement_address();
 
             // evaluate condition into A
             self.generate_expression_instructions(else_if_block.condition);
